@@ -22,6 +22,7 @@ type Canon struct {
 	env      []map[*ssa.Parameter]string
 	PhiEdge  map[*ssa.Phi]ssa.Value // optional: phi resolved along the current path
 	phiStack []*ssa.Phi
+	PhiName  map[*ssa.Phi]string // optional: fixed names (iteration mode: loop state variables)
 }
 
 func NewCanon(p *Program) *Canon {
@@ -176,6 +177,9 @@ func (c *Canon) of(v ssa.Value) string {
 	case *ssa.BinOp:
 		return "(" + c.Of(x.X) + " " + x.Op.String() + " " + c.Of(x.Y) + ")"
 	case *ssa.Phi:
+		if n, ok := c.PhiName[x]; ok {
+			return n
+		}
 		if c.PhiEdge != nil {
 			if e, ok := c.PhiEdge[x]; ok {
 				return c.Of(e)
@@ -430,9 +434,11 @@ func (c *Canon) CondAtom(cond ssa.Value) (atom string, valWhenTrue bool) {
 		v = StripConv(v)
 		if c.PhiEdge != nil {
 			if ph, ok := v.(*ssa.Phi); ok {
-				if e, ok := c.PhiEdge[ph]; ok {
-					v = e
-					continue
+				if _, named := c.PhiName[ph]; !named {
+					if e, ok := c.PhiEdge[ph]; ok {
+						v = e
+						continue
+					}
 				}
 			}
 		}
